@@ -9,6 +9,7 @@ import (
 
 	"github.com/philpearl/avro"
 
+	"verifharness/filedrv"
 	"verifharness/fw"
 	"verifharness/gv"
 	"verifharness/ref"
@@ -368,6 +369,100 @@ func runEmbedded(c *fw.Ctx) {
 	c.Sample(map[string]interface{}{"kind": "embedded structs", "schemas": len(schemas), "targets": []string{"embOuter", "embPtrOuter"}})
 }
 
+// ---- top-level destinations: only a struct or a pointer to a struct may be decoded into; anything else
+// (pointer to pointer, pointer to a non-struct, slices, maps, scalars) must be refused without touching memory
+
+type topS struct {
+	A int64  `json:"a"`
+	B string `json:"b"`
+	C int64  `json:"c"`
+}
+
+func runTopLevel(c *fw.Ctx) {
+	rs := ref.Record("TopS", ref.F("a", ref.Prim("long")), ref.F("b", ref.Prim("string")), ref.F("c", ref.Prim("long")))
+	d := ref.DRecord(ref.DLong(2), ref.DString("bee"), ref.DLong(3))
+	data, _ := ref.WriteFile(ref.StdMeta(rs.Print(nil), "null", true), "null", [16]byte{7}, []ref.Block{{Count: 1, Payload: ref.Encode(rs, d)}})
+	type holder struct {
+		G0 [4]uint64
+		P  *topS
+		G1 [4]uint64
+		PP **topS
+		G2 [4]uint64
+		I  *int64
+		G3 [4]uint64
+	}
+	fresh := func() *holder {
+		h := &holder{}
+		for i := range h.G0 {
+			h.G0[i], h.G1[i], h.G2[i], h.G3[i] = can0, can2, can0, can2
+		}
+		return h
+	}
+	intact := func(h *holder) bool {
+		for i := range h.G0 {
+			if h.G0[i] != can0 || h.G1[i] != can2 || h.G2[i] != can0 || h.G3[i] != can2 {
+				return false
+			}
+		}
+		return true
+	}
+	cases := []struct {
+		name string
+		out  func(h *holder) interface{}
+		ok   bool
+	}{
+		{"struct", func(h *holder) interface{} { return topS{} }, true},
+		{"*struct", func(h *holder) interface{} { h.P = &topS{}; return h.P }, true},
+		{"**struct", func(h *holder) interface{} { return &h.P }, false},
+		{"**struct (non-nil inner)", func(h *holder) interface{} { h.P = &topS{}; return &h.P }, false},
+		{"***struct", func(h *holder) interface{} { return &h.PP }, false},
+		{"*int64", func(h *holder) interface{} { return &h.I }, false},
+		{"int64", func(h *holder) interface{} { return int64(0) }, false},
+		{"[]struct", func(h *holder) interface{} { return []topS{{}} }, false},
+		{"*[]struct", func(h *holder) interface{} { x := []topS{{}}; return &x }, false},
+		{"map", func(h *holder) interface{} { return map[string]int64{} }, false},
+		{"string", func(h *holder) interface{} { return "" }, false},
+	}
+	for _, tc := range cases {
+		c.Eval(1)
+		locus := "top-level|" + tc.name
+		desc := "ReadFile / Schema.Codec with a destination of shape " + tc.name
+		c.Nontrivial(desc)
+		c.Begin(locus, desc)
+		h := fresh()
+		out := tc.out(h)
+		var cerr, rerr error
+		n := 0
+		if c.Guard(locus, desc, desc, func() {
+			s, err := avro.SchemaFromString(rs.Print(nil))
+			if err != nil {
+				cerr = err
+				return
+			}
+			_, cerr = s.Codec(out)
+			rerr = avro.ReadFile(&filedrv.Reader{Data: data}, out, func(val unsafe.Pointer, rb *avro.ResourceBank) error { n++; return nil })
+		}) {
+			continue
+		}
+		if !intact(h) {
+			c.Violation("wrote-outside-destination|"+locus, "memory around the destination was modified — "+desc, desc)
+			continue
+		}
+		if tc.ok {
+			if cerr != nil || rerr != nil || n != 1 {
+				c.Violation("read-error|"+locus, fmt.Sprintf("Codec err=%v ReadFile err=%v records=%d — %s", cerr, rerr, n, desc), desc)
+			}
+			continue
+		}
+		if cerr == nil {
+			c.Violation("unsound-pair-accepted|"+locus, "Schema.Codec built a decoder for a destination that is neither a struct nor a pointer to a struct — "+desc, desc)
+		}
+		if rerr == nil {
+			c.Violation("unsound-pair-accepted|ReadFile|"+locus, fmt.Sprintf("ReadFile accepted the destination and delivered %d records — %s", n, desc), desc)
+		}
+	}
+}
+
 type pairCase struct {
 	sn  snode
 	gt  gtype
@@ -592,11 +687,15 @@ func init() {
 			"the null schema stores nothing and is sound with any Go type",
 			"writes further than the guard elements / the slice capacity that happen not to crash are not observed",
 		},
-		NumCases: func(tier string) int { return (len(pairs(tier))+chunk-1)/chunk + 1 },
+		NumCases: func(tier string) int { return (len(pairs(tier))+chunk-1)/chunk + 2 },
 		RunCase: func(c *fw.Ctx, idx int) {
 			ps := pairs(c.Tier)
 			if idx == (len(ps)+chunk-1)/chunk {
 				runEmbedded(c)
+				return
+			}
+			if idx == (len(ps)+chunk-1)/chunk+1 {
+				runTopLevel(c)
 				return
 			}
 			for k := idx * chunk; k < (idx+1)*chunk && k < len(ps); k++ {
